@@ -390,3 +390,19 @@ def M4.productList (l : List (M4 α)) : M4 α := l.foldl (· * ·) M4.one
 end folds
 
 end Cg
+
+namespace Cg
+/-! `Transform::inverse_transform` / `inverse_transform_vector` for matrices -/
+section invtr
+variable {α : Type} [Add α] [Sub α] [Mul α] [Div α] [Neg α] [OfNat α 0] [OfNat α 1] [DecidableEq α]
+def M3.inverseTransform (m : M3 α) : Option (M3 α) := m.invert
+def M4.inverseTransform (m : M4 α) : Option (M4 α) := m.invert
+/-- default method: `self.inverse_transform().map(|inverse| inverse.transform_vector(vec))` -/
+def M3.inverseTransformVector2 (m : M3 α) (v : V2 α) : Option (V2 α) :=
+  m.inverseTransform.map fun i => i.transformVector2 v
+def M3.inverseTransformVector (m : M3 α) (v : V3 α) : Option (V3 α) :=
+  m.inverseTransform.map fun i => i.transformVector v
+def M4.inverseTransformVector (m : M4 α) (v : V3 α) : Option (V3 α) :=
+  m.inverseTransform.map fun i => i.transformVector v
+end invtr
+end Cg
